@@ -410,6 +410,30 @@ static bool ideal_item(const std::string & t, const std::vector<uint8> & v, char
    return false;
 }
 
+// ---- templated codec (stream "t"): shape test through the public API, the same definition as same_shape in Msg/TmplModel.v
+static bool same_shape(const Message & t, const Message & p)
+{
+   std::vector<String> tn, pn;
+   for (MessageFieldNameIterator it = t.GetFieldNameIterator(); it.HasData(); it++) {uint32 tc = 0; (void) t.GetInfo(it.GetFieldName(), &tc); if (flattenable_type(tc)) tn.push_back(it.GetFieldName());}
+   for (MessageFieldNameIterator it = p.GetFieldNameIterator(); it.HasData(); it++) {uint32 tc = 0; (void) p.GetInfo(it.GetFieldName(), &tc); if (flattenable_type(tc)) pn.push_back(it.GetFieldName());}
+   if (tn.size() != pn.size()) return false;
+   for (size_t i=0; i<tn.size(); i++)
+   {
+      if ((tn[i].Length() != pn[i].Length())||(memcmp(tn[i](), pn[i](), tn[i].Length()) != 0)) return false;
+      uint32 tt = 0, tp = 0, ct = 0, cp = 0;
+      if (t.GetInfo(tn[i], &tt, &ct).IsError() || p.GetInfo(pn[i], &tp, &cp).IsError()) return false;
+      if ((tt != tp)||(ct != cp)) return false;
+      if (tt == B_MESSAGE_TYPE)
+         for (uint32 j=0; j<ct; j++)
+         {
+            MessageRef a, b;
+            if (t.FindMessage(tn[i], j, a).IsError() || p.FindMessage(pn[i], j, b).IsError() || (a() == NULL) || (b() == NULL)) return false;
+            if (!same_shape(*a(), *b())) return false;
+         }
+   }
+   return true;
+}
+
 // deterministic byte mutation shared with ocaml/msg_driver.ml (stream "g": parsing bytes that Flatten did NOT produce)
 static uint32 g_lcg;
 static uint32 lcg_next() {g_lcg = (uint32)((((uint64) g_lcg) * 1103515245ULL + 12345ULL) & 0x7fffffffULL); return g_lcg >> 12;}
@@ -442,11 +466,12 @@ static void mutate(std::vector<uint8> & b, uint32 seed)
 static void run_case(int k, const std::string & head, const std::string & body)
 {
    std::ostringstream out, orc;
-   const bool in_domain = (head == "m");   // "n": Strings with embedded NUL (F9); "g": Messages parsed from mutated bytes -- outside the property's domain
+   const bool in_domain = (head == "m")||(head == "t");   // "n": Strings with embedded NUL (F9); "g": Messages parsed from mutated bytes -- outside the property's domain
    {
       Message regs[8];
       IMsg ideal[8];
       bool ideal_live = in_domain;       // the ideal oracle stops at the first reported difference
+      uint32 tm_seed = 0; bool tm_set = false;
       std::string st;
       std::vector<std::string> ops = split(body, ';');
       for (size_t n=0; n<ops.size(); n++)
@@ -476,6 +501,7 @@ static void run_case(int k, const std::string & head, const std::string & body)
             else if ((c == "mf")&&(a.size() == 3)) iok = imove(IREG(1), true, SN(2));
             else if ((c == "mb")&&(a.size() == 3)) iok = imove(IREG(1), false, SN(2));
             else if ((c == "cn")&&(a.size() == 4)) iok = icopy_name(IREG(1), SN(2), SN(3));
+            else if ((c == "ct")||(c == "tm")) ideal_live = false;    // templates are compared with the model only
          }
          if ((c == "w")&&(a.size() == 3)) {REG(1).what = (uint32) strtoul(a[2].c_str(), NULL, 10); ok = true;}
          else if (((c == "a")||(c == "p"))&&(a.size() == 5)) ok = typed_op(REG(1), c[0], FN(2), a[3], unhex(a[4]), 0, false);
@@ -509,6 +535,13 @@ static void run_case(int k, const std::string & head, const std::string & body)
          else if ((c == "mf")&&(a.size() == 3)) ok = REG(1).MoveNameToFront(FN(2)).IsOK();
          else if ((c == "mb")&&(a.size() == 3)) ok = REG(1).MoveNameToBack(FN(2)).IsOK();
          else if ((c == "cn")&&(a.size() == 4)) {Message & m = REG(1); ok = m.CopyName(FN(2), m, FN(3)).IsOK(); if (ok) unshare(m);}
+         else if ((c == "ct")&&(a.size() == 3))
+         {
+            // R = CreateMessageTemplate(S)
+            MessageRef t = REG(2).CreateMessageTemplate();
+            if (t()) {Message & d = REG(1); d = *t(); unshare(d); ok = true;}
+         }
+         else if ((c == "tm")&&(a.size() == 2)) {tm_seed = (uint32) strtoul(a[1].c_str(), NULL, 10); tm_set = true; ok = true;}
          else if ((c == "um")&&(a.size() == 3))
          {
             // flatten, mutate the bytes deterministically, parse what results (only compared with the model's parser)
@@ -541,6 +574,54 @@ static void run_case(int k, const std::string & head, const std::string & body)
       out << k << " F " << fs << " " << hex(&buf[0], fs) << "\n";
       const uint32 chk = m0.CalculateChecksum(), chkall = m0.CalculateChecksum(true);
       out << k << " C " << chk << " " << chkall << "\n";
+      if ((!head.empty())&&(head[0] == 't'))
+      {
+         // ---- templated serialisation of register 0 (payload) against register 1 (template)
+         const Message & T = regs[1];
+         {
+            const uint32 tfs = T.FlattenedSize(); std::vector<uint8> tb(tfs); T.FlattenToBytes(&tb[0], tfs);
+            out << k << " TT " << desc(T) << " " << hex(&tb[0], tfs) << "\n";
+         }
+         if (!same_shape(T, m0)) out << k << " TF skip\n";
+         else
+         {
+            const uint32 ts = m0.TemplatedFlattenedSize(T);
+            std::vector<uint8> tb(ts ? ts : 1);
+            m0.TemplatedFlatten(T, DataFlattener(&tb[0], ts));     // aborts unless exactly ts bytes are written
+            out << k << " TF " << ts << " " << hex(&tb[0], ts) << "\n";
+            std::vector<uint8> exact(tb.begin(), tb.begin()+ts);
+            Message u;
+            DataUnflattener unf(exact.empty() ? (const uint8 *) "" : &exact[0], ts);
+            if (u.TemplatedUnflatten(T, unf).IsOK())
+            {
+               const uint32 ufs = u.FlattenedSize(); std::vector<uint8> ub(ufs); u.FlattenToBytes(&ub[0], ufs);
+               out << k << " TU ok " << desc(u) << " " << hex(&ub[0], ufs) << "\n";
+               std::string why;
+               if (!same_content(m0, u, why)) orc << k << " ORACLE FAIL templated: the Message parsed back differs from the original: " << why << "\n";
+               if (u.CalculateChecksum() != chk) orc << k << " ORACLE FAIL templated: CalculateChecksum changed by the templated trip\n";
+            }
+            else
+            {
+               out << k << " TU err\n";
+               orc << k << " ORACLE FAIL templated: TemplatedUnflatten rejects the bytes TemplatedFlatten produced\n";
+            }
+            if (tm_set)
+            {
+               // malformed templated bytes: only compared with the model's templated parser
+               std::vector<uint8> mb(exact);
+               mutate(mb, tm_seed);
+               std::vector<uint8> mexact(mb);
+               Message v;
+               DataUnflattener unf2(mexact.empty() ? (const uint8 *) "" : &mexact[0], (uint32) mexact.size());
+               if (v.TemplatedUnflatten(T, unf2).IsOK())
+               {
+                  const uint32 vfs = v.FlattenedSize(); std::vector<uint8> vb(vfs); v.FlattenToBytes(&vb[0], vfs);
+                  out << k << " TM ok " << desc(v) << " " << hex(&vb[0], vfs) << "\n";
+               }
+               else out << k << " TM err\n";
+            }
+         }
+      }
       Message u0;
       if (u0.UnflattenFromBytes(&buf[0], fs).IsOK())
       {
